@@ -732,7 +732,8 @@ def execute(trace):
     return {"results": sim.results, "violations": sim.violations,
             "counters": sim.counters, "sig": sim.sig,
             "states": sorted(sim.states), "sim_time_us": sim.sim_time_us,
-            "n_span": sim.n_span, "reads": sim.facade.total_reads}
+            "n_span": sim.n_span, "reads": sim.facade.total_reads,
+            "unsimulated": sorted(set(sim.facade.unsimulated))}
 
 
 def check_trace_full(trace):
@@ -741,6 +742,8 @@ def check_trace_full(trace):
     counters["simulated_time_covered_s"] = (
         res["sim_time_us"] // 10 ** 6 + res["n_span"])
     counters["seam_reads"] = res["reads"]
+    for name in res["unsimulated"]:
+        counters["unmodelled_time_attribute_read." + name] = 1
     dig = kernel.digest([res["results"], res["violations"]])
     sig = hashlib.sha256("|".join(res["sig"]).encode()).hexdigest()[:16]
     nontrivial = any(s.startswith(("p:", "i:")) for s in res["sig"])
